@@ -74,6 +74,8 @@ BUILTIN_EXC = {
 
 
 class Obligation(object):
+    hide = ()
+
     def __init__(self, name, kind, pc, goal, func, lineno, path, note=''):
         self.name = name
         self.kind = kind
@@ -335,7 +337,9 @@ class Executor(object):
             return
         name = '%s.%s' % (self.contract.name if self.contract else self.func.qualname, label)
         ln = getattr(node, 'lineno', 0) if node is not None else 0
-        self.obligations.append(Obligation(name, kind, list(st.pc), goal, self.func.qualname if self.func else '?', ln, self.path_no, note))
+        ob = Obligation(name, kind, list(st.pc), goal, self.func.qualname if self.func else '?', ln, self.path_no, note)
+        ob.hide = tuple('sp_' + h for h in getattr(node, 'hide', ()) or ())
+        self.obligations.append(ob)
 
     def assume(self, st, t):
         if t.op == 'const':
